@@ -53,6 +53,7 @@ class Reporter:
         self.violations = []          # unlisted
         self.known_hits = {}          # finding id -> count
         self.known_example = {}
+        self.class_counts = {}
 
     def _match(self, fn, tag):
         for k in self.findings:
@@ -69,7 +70,8 @@ class Reporter:
             self.known_hits[kid] = self.known_hits.get(kid, 0) + 1
             self.known_example.setdefault(kid, detail)
             return False
-        if len(self.violations) < 200:
+        self.class_counts[(fn, tag)] = self.class_counts.get((fn, tag), 0) + 1
+        if len(self.violations) < 200 or self.class_counts[(fn, tag)] <= 3:
             self.violations.append({"function": fn, "class": tag, "detail": detail})
         else:
             self.violations.append(None)
@@ -99,6 +101,8 @@ class Reporter:
                 f.write(blob)
             print("VIOLATION property=%s replay=%s" % (self.prop, path))
             print("  function=%s class=%s detail=%s" % (v["function"], v["class"], blob[:600]))
+        for (f, c), n in sorted(self.class_counts.items()):
+            print("  class-count %s %s : %d" % (f, c, n))
         print("  (%d violating cases in total)" % len(self.violations))
         return 1
 
